@@ -8,6 +8,7 @@ import (
 	"encoding/json"
 	"flag"
 	"fmt"
+	"os"
 	"runtime"
 	"strconv"
 	"strings"
@@ -159,6 +160,7 @@ func (m *mirror) pathLoad() int {
 	}
 	return t
 }
+
 // from-scratch evaluation; ok = false: the evaluation panics (inputs in declaration order, first panic aborts)
 func (m *mirror) scratch(n int) (v int, ok bool) {
 	if isParam(m.desc[n].Kind) {
@@ -634,6 +636,13 @@ func runHist(run *hx.Run, d histDesc) {
 func main() {
 	run := hx.ParseFlags("C11", "Check.C11")
 	for _, in := range run.Inputs() {
+		if in.Kind == "lazy" {
+			var d lazyDesc
+			if err := json.Unmarshal(in.Raw, &d); err == nil && len(d.Init) == len(lazyParams) {
+				runLazy(run, d)
+			}
+			continue
+		}
 		var d histDesc
 		if err := json.Unmarshal(in.Raw, &d); err == nil {
 			runHist(run, d)
@@ -649,6 +658,16 @@ func main() {
 	r := hx.NewRng(run.Seed)
 	for i := 0; i < run.N; i++ {
 		runHist(run, genHist(r, run.Tier == "thorough"))
+	}
+	// processors that skip inputs (see lazy.go): Go-judged; on until fixes/C11-unread-stale-input.patch has landed
+	// these histories reproduce a known finding, so the stream is opt-in
+	if os.Getenv("VERIF_C11_LAZY") == "1" {
+		for _, d := range fixedLazy() {
+			runLazy(run, d)
+		}
+		for i := 0; i < run.N/5; i++ {
+			runLazy(run, genLazy(r))
+		}
 	}
 	run.Finish()
 }
